@@ -615,7 +615,7 @@ def r07e(ck, prog):
                             "%s pass [%s] piece %s: %s = %s in all three kernels" % (suf, label, path or "/", name, show(ref)), prog.config)
                     for kk in KINDS_:
                         if vs[kk] != ref:
-                            vocab = lambda k2: {a for v in rows[k2][si][1].values() for alt in v for a, _ in alt}
+                            vocab = lambda k2: {a for v in rows[k2][si][1].values() for alt in v for a, _ in alt if a.endswith("@in")}
                             foreign = vocab(kk) - set().union(*[vocab(k2) for k2 in KINDS_ if vs[k2] == ref])
                             if foreign:
                                 raise AnalysisBroken("R07e: %s computes %s in piece %s from %s, which its siblings do not use there: "
@@ -626,6 +626,53 @@ def r07e(ck, prog):
                                          "%s, piece %s with %s: %s = %s, but %s in its sibling kernels: this kernel scores an alignment "
                                          "differently from the recurrence the other two implement" % (kk + suf, path or "/", label, name, show(vs[kk]), show(ref)),
                                          prog.config)
+
+
+# --------------------------------------------------------------------------- R07g: backward = mirror image of forward
+def _mirror_name(t):
+    return (t.replace("j-1", "\0").replace("j+1", "j-1").replace("\0", "j+1")
+             .replace("startb", "\1").replace("endb", "startb").replace("\1", "endb"))
+
+
+def _mirror_val(v):
+    return frozenset(frozenset((_mirror_name(a), c) for a, c in alt) for alt in v)
+
+
+def r07g(ck, prog):
+    """in each kernel the backward pass is the mirror image of the forward pass: exchanging left and right (j-1 <-> j+1,
+    startb <-> endb, and the two border situations) turns every piece of the forward pass into the corresponding piece of
+    the backward pass - the two halves of a Hirschberg step score one and the same alignment model"""
+    import itertools
+    n = 0
+    for kk in KINDS_:
+        Ff, Fb = prog.fn(kk + "foward"), prog.fn(kk + "backward")
+        for x, y in itertools.product((True, False), repeat=2):
+            try:
+                f, cf, _ = kernel_summary(Ff, {"startb!=0": x, "endb!=len_b": y})
+                b, cb, wb = kernel_summary(Fb, {"startb!=0": y, "endb!=len_b": x})
+            except Unsupported as e:
+                raise AnalysisBroken("R07g: %s passes are not in the max-plus fragment (%s)" % (kk, e))
+            carried = cf | cb
+            keep = lambda o: {k: v for k, v in o.items() if k.startswith("s[") or k in carried}
+            fm = [(p, {_mirror_name(k): _mirror_val(v) for k, v in keep(o).items()}) for p, o in f]
+            bb = [(p, keep(o)) for p, o in b]
+            if [(p, sorted(o)) for p, o in fm] != [(p, sorted(o)) for p, o in bb]:
+                raise AnalysisBroken("R07g: %sfoward and %sbackward are not organised as mirror images (different loops or cells); not compared" % (kk, kk))
+            label = "forward[startb!=0=%s, endb!=len_b=%s]" % (x, y)
+            for (p, o), (_, o2) in zip(fm, bb):
+                for k in sorted(o):
+                    n += 1
+                    if o[k] != o2[k]:
+                        vocab = lambda oo: {a for v in oo.values() for alt in v for a, _ in alt if a.endswith("@in")}
+                        if vocab(o2) - vocab(o) or vocab(o) - vocab(o2):
+                            raise AnalysisBroken("R07g: %s piece %s uses different quantities in the two passes (%s); not compared"
+                                                 % (kk, p, sorted((vocab(o2) - vocab(o)) | (vocab(o) - vocab(o2)))))
+                        ck.violation("R07g", "R07g/%s/%s/%s/%s%s" % (kk, p, k, "TF"[not x], "TF"[not y]), site(prog, wb.get((p, k), Fb), k),
+                                     "%sbackward piece %s: %s = %s, but the mirror image of the forward pass (%s) gives %s: the two halves of a "
+                                     "Hirschberg step score different models, so the split they agree on is not the optimum of either"
+                                     % (kk, p, k, show(o2[k]), label, show(o[k])), prog.config)
+        ck.inst("R07g", site(prog, Fb), "%sbackward is the mirror image of %sfoward in all four border situations" % (kk, kk), prog.config)
+    ck.floor("R07g", n, 300, "mirrored values")
 
 
 # --------------------------------------------------------------------------- R07f: meet-in-the-middle candidates agree
@@ -738,6 +785,7 @@ def run(ck, progs):
     describe(ck)
     ck.rule("R07e", "the three forward kernels implement one recurrence and the three backward kernels one: every straight-line piece leaves the same max-plus normal form in every DP cell and carried local (penalties mapped to open/extension/terminal classes, scores to S)")
     ck.rule("R07f", "the three meetup functions price each transition alike under every border situation, and store the value they compared")
+    ck.rule("R07g", "in each kernel the backward pass is the mirror image (left<->right) of the forward pass, piece by piece, in max-plus normal form")
     ck.rule("R07d", "the three forward kernels test the sub-rectangle borders (startb / endb != len_b) in the same order, and so do the three backward kernels")
     ck.rule("R07c", "group weighting: each profile's gap penalties are scaled by the size of the other group, for both sides, on the branch where that side is a profile")
     from . import c02
@@ -748,6 +796,7 @@ def run(ck, progs):
         ck.attempt(r07d, ck, prog)
         ck.attempt(r07e, ck, prog)
         ck.attempt(r07f, ck, prog)
+        ck.attempt(r07g, ck, prog)
         before = len(ck.instances)
         ck.attempt(c02.r02g, ck, prog)
         for i in ck.instances[before:]:
